@@ -409,8 +409,9 @@ class LoaderLoad(Contract):
     callable_by_contract = False
     unbounded = False
     own_bounds = True
+    # the step limit the environment counts against is the one this load produced (C06: "never, if there is none")
     tags = {"C17": ("C17", "C02"), "C17.host-os-services-processes": ("C17", "C09", "C01"), "C18": ("C18",),
-            "raises": ("C17",), "frame": ("C17", "C19")}
+            "C17.step-limit": ("C17", "C06"), "raises": ("C17",), "frame": ("C17", "C19", "C06")}
 
     def must_not_return(self, variant):
         return not variant.endswith("|valid")
@@ -465,6 +466,13 @@ class LoaderLoad(Contract):
             loader = V.construct(I, "nasim.scenarios.loader.ScenarioLoader", [], label="loader")
         else:
             loader = Obj(lcls, {}, fresh=False, label="loader")
+            loader.hidden = set()
+        # ... it may have loaded other files before: every instance field that a method other than __init__ assigns holds
+        # unknown left-over state of that earlier load (hidden: reading it before this call assigns it fails the frame)
+        for fname in V.mutable_fields(lcls):
+            if fname not in loader.fields:
+                loader.fields[fname] = Opaque("left over from an earlier load: " + fname)
+                loader.hidden.add(fname)
         S.a = {"self": loader}
         S.call_args = ([loader, "doc.yaml"], {})
         return S
